@@ -22,7 +22,7 @@ META = {
                     "repeated their count; the real back end (qutechopenql 0.12.2) is trusted to write what it was given"],
     "floors": {
         "quick": {"exports_recorded": 5500, "instructions_compared": 50000, "compiled_by_openql": 450, "name_determinism_checks": 5500, "subcircuit_in_the_middle": 1500,
-                  "repetition_ge_2": 1500, "unsupported_omitted": 10000},
+                  "repetition_ge_2": 1500, "unsupported_omitted": 10000, "cross_process_name_checks": 50},
         "thorough": {"exports_recorded": 55000, "compiled_by_openql": 4500},
     },
 }
@@ -37,6 +37,9 @@ def plan(tier: str, seed: int) -> List[Dict[str, Any]]:
     shards = common.split_shards("gen", total, 16, seed, 15, classes=["allkinds", "nested_implicit", "measure", "allkinds"])
     for sh in shards:
         sh["compile_every"] = max(1, total // compiled)
+    # names must not depend on the interpreter process: the same programs are exported in fresh processes with different hash seeds
+    shards.append({"kind": "names", "n": 60 if tier == "quick" else 300, "seed": common.seed_base(seed, 151), "hashseed": 0,
+                   "classes": ["allkinds", "nested_implicit", "measure"]})
     return shards
 
 
@@ -295,8 +298,54 @@ def check_program(prog: Dict[str, Any], acc: Acc, flags=None, compile_it: bool =
     memo_shadow.drain()
 
 
+NAMES_SCRIPT = """
+import json, sys, warnings
+sys.path.insert(0, %r)
+from qv import env; env.bootstrap()
+warnings.simplefilter('ignore')
+from qv import bp
+from qv.props import c15
+from qce_circuit.addon_openql.factory_manager import to_openql
+out = []
+for prog in json.load(sys.stdin):
+    built = bp.build(prog, bp.Ctx(prog.get('settings')))
+    with c15.recording():
+        out.append(to_openql(built.top.circuit).names())
+print('NAMES ' + json.dumps(out))
+"""
+
+
+def run_names(shard: Dict[str, Any], acc: Acc):
+    """Export the same programs in fresh interpreter processes with different hash seeds: names must be identical."""
+    import json
+    import subprocess
+    import sys
+    from qv import env
+    rng = random.Random(shard["seed"])
+    progs = [gen_case(rng, shard["classes"][i % len(shard["classes"])]) for i in range(shard["n"])]
+    results = []
+    for hs in (1, 2, 3):
+        e = dict(os.environ)
+        e["PYTHONHASHSEED"] = str(hs)
+        r = subprocess.run([sys.executable, "-c", NAMES_SCRIPT % env.VERIF_DIR], input=json.dumps(progs), capture_output=True, text=True, env=e, timeout=900)
+        line = [ln for ln in r.stdout.splitlines() if ln.startswith("NAMES ")]
+        if not line:
+            acc.inconclusive.append("names subprocess failed: " + r.stderr[-300:])
+            return
+        results.append(json.loads(line[0][6:]))
+    for i, prog in enumerate(progs):
+        acc.count("cross_process_name_checks")
+        acc.case(bp.phash(prog), True, sample=prog if i < 2 else None)
+        if not (results[0][i] == results[1][i] == results[2][i]):
+            acc.finding("openql/names-depend-on-process", "the same circuit yields different program/kernel names in different interpreter processes (hash seeds)",
+                        {"program": prog}, {"names": [results[k][i][:3] for k in range(3)]})
+
+
 def run_shard(shard: Dict[str, Any]) -> Acc:
     acc = Acc()
+    if shard.get("kind") == "names":
+        run_names(shard, acc)
+        return acc
     rng = random.Random(shard["seed"])
     classes = shard["classes"]
     for i in range(shard["n"]):
@@ -304,7 +353,7 @@ def run_shard(shard: Dict[str, Any]) -> Acc:
         prog = gen_case(rng, cls)
         acc.hist("class", cls)
         flags: Dict[str, Any] = {}
-        common.guarded(acc, check_program, prog, acc, flags, i % shard.get("compile_every", 10) == 0)
+        common.guarded(acc, check_program, prog, acc, flags, i % shard.get("compile_every", 10) == 0, case={"program": prog})
         acc.case(bp.phash(prog), bool(flags.get("nontrivial")), sample=prog if i < 40 else None)
     return acc
 
